@@ -97,6 +97,9 @@ func (x *Exec) Compare(op Op, exp Op, o *Observed) []string {
 		add("status/code: got %d/%q, want %d/%q", o.Status, o.ErrCode(), exp.I("st"), exp.S("code"))
 		return bad
 	}
+	if o.Status == 304 && exp.B("nobody") && len(o.Body) != 0 && !isHead {
+		// NotModified is sent as an S3 error document by gofakes3; S3 sends no body.  Followed, not required.
+	}
 	if o.Status >= 300 {
 		return bad
 	}
